@@ -42,6 +42,8 @@ structure Sym where
   name : String        -- grammar symbol (terminal name / nonterminal / "error"), for messages only
   val : Val
   stop : Nat
+  /-- ghost: the ACTION columns of the tokens this symbol spans (not read by the driver) -/
+  toks : List Nat := []
 deriving Inhabited
 
 inductive Outcome
@@ -58,6 +60,9 @@ structure St where
   input : List Char
   pos : Nat := 0
   diags : List Diag := []
+  /-- ghost: the ACTION columns of the tokens shifted so far, and whether error recovery has run -/
+  hist : List Nat := []
+  recovered : Bool := false
 
 inductive NextToken
   | found (t : Token) (col : Nat)
@@ -117,9 +122,10 @@ def reduceArgs (popped : List Sym) (start stop : Nat) : List ArgV :=
   if popped.length = 0 then [.locRef start, .locRef stop] else popped.map fun x => .triple x.start x.val x.stop
 
 /-- push the result of a reduction and take the GOTO transition -/
-def reducePush (s : St) (prod : Production) (rest : List Sym) (v : Val) (start stop : Nat) : St × Option Outcome :=
+def reducePush (s : St) (prod : Production) (rest : List Sym) (v : Val) (start stop : Nat) (toks : List Nat := []) :
+    St × Option Outcome :=
   if prod.accept then ({ s with syms := rest }, some (.accept v)) else
-  let s := { s with syms := { start, id := T.ncols + prod.nt, name := prod.lhs, val := v, stop } :: rest }
+  let s := { s with syms := { start, id := T.ncols + prod.nt, name := prod.lhs, val := v, stop, toks } :: rest }
   if s.states.length < prod.pops + 1 then (s, some (.panic "reduce: state stack underflow")) else
   let states := s.states.drop prod.pops
   let next := gotoOf T (states.headD 0) prod.nt
@@ -134,7 +140,7 @@ def reduceCore (s : St) (prod : Production) (laStart : Option Nat) : St × Optio
   let stop := reduceStop popped start
   match (evalAction T.actions 16 prod.action (reduceArgs popped start stop)).run env |>.run s.diags with
   | .error e => (s, some (.actionPanic e))
-  | .ok (v, diags) => reducePush T { s with diags := diags } prod rest v start stop
+  | .ok (v, diags) => reducePush T { s with diags := diags } prod rest v start stop (popped.flatMap (·.toks))
 
 /-- the generated `__reduce`: `none` = continue, `some o` = the parse is over -/
 def reduce (s : St) (p : Nat) (laStart : Option Nat) : St × Option Outcome :=
@@ -237,7 +243,7 @@ def recoverPush (error : ParseErr) (statesLen : Nat) (s : St) (top : Nat) (la : 
   match asShift (errorAction T (states.headD 0)) with
   | none => (s, .done (.panic "error_recovery: error_action.as_shift().unwrap()"))
   | some errState =>
-    let s := { s with states := errState :: states,
+    let s := { s with states := errState :: states, recovered := true,
                       syms := { start, id := T.ncols - 1, name := "error", val := .recovery error dropped, stop } :: syms }
     match la, col with
     | some l, some c => (s, .found l c)
@@ -278,8 +284,8 @@ def parseInner (s : St) (la : Token) (col : Nat) : Nat → St × Sum Unit Outcom
     match asShift a with
     | some target =>
       let name := T.terminals[col]?.getD "?"
-      ({ s with states := target :: s.states,
-                syms := { start := la.start, id := col, name, val := .tok la.text, stop := la.stop } :: s.syms }, .inl ())
+      ({ s with states := target :: s.states, hist := s.hist ++ [col],
+                syms := { start := la.start, id := col, name, val := .tok la.text, stop := la.stop, toks := [col] } :: s.syms }, .inl ())
     | none =>
       match asReduce a with
       | some r =>
